@@ -1123,6 +1123,106 @@ pub mod xm {
     }
 }
 
+/// hand-written member: ALL nine built-in formatting traits (`::ext::core::fmt::*`), each implemented with its own output, through
+/// a group and through single-trait objects; also an implementor that fails by itself (`Err(fmt::Error)` after part of the
+/// output, the sink being healthy)
+pub mod xq {
+    #![allow(unused_variables, unused_mut, dead_code, clippy::all)]
+    use h_objbase::support::*;
+    use cglue::*;
+    use ::core::fmt;
+    use ::core::fmt::Write as _;
+    pub struct Q {
+        pub id: u64,
+        pub fail: bool,
+    }
+    macro_rules! q_impl {
+        ($($T:ident $tag:expr),*) => {$(
+            impl fmt::$T for Q {
+                fn fmt(&self, f: &mut fmt::Formatter) -> fmt::Result {
+                    f.write_str($tag)?;
+                    write!(f, "-{}", self.id)?;
+                    if self.fail {
+                        return Err(fmt::Error);
+                    }
+                    f.write_str("-tail")
+                }
+            }
+        )*};
+    }
+    q_impl!(Display "dsp", Debug "dbg", Octal "oct", LowerHex "lhx", UpperHex "uhx", Pointer "ptr", Binary "bin", LowerExp "lex", UpperExp "uex");
+    #[cglue_trait]
+    pub trait QBase {
+        fn qid(&self) -> u64;
+    }
+    impl QBase for Q {
+        fn qid(&self) -> u64 {
+            self.id
+        }
+    }
+    cglue_trait_group!(Gq, {
+        QBase,
+        ::ext::core::fmt::Display,
+        ::ext::core::fmt::Debug,
+        ::ext::core::fmt::Octal,
+        ::ext::core::fmt::LowerHex,
+        ::ext::core::fmt::UpperHex,
+        ::ext::core::fmt::Pointer,
+        ::ext::core::fmt::Binary,
+        ::ext::core::fmt::LowerExp,
+        ::ext::core::fmt::UpperExp
+    }, {});
+    cglue_impl_group!(Q, Gq, {});
+    pub const NAMES: [&str; 9] = ["Display", "Debug", "Octal", "LowerHex", "UpperHex", "Pointer", "Binary", "LowerExp", "UpperExp"];
+    fn all<T>(t: &T) -> Vec<(bool, String)>
+    where
+        T: fmt::Display + fmt::Debug + fmt::Octal + fmt::LowerHex + fmt::UpperHex + fmt::Pointer + fmt::Binary + fmt::LowerExp + fmt::UpperExp,
+    {
+        let mut v = Vec::new();
+        macro_rules! one {
+            ($spec:expr) => {{
+                let mut s = String::new();
+                let r = write!(s, $spec, *t);
+                v.push((r.is_ok(), s));
+            }};
+        }
+        one!("{}");
+        one!("{:?}");
+        one!("{:o}");
+        one!("{:x}");
+        one!("{:X}");
+        one!("{:p}");
+        one!("{:b}");
+        one!("{:e}");
+        one!("{:E}");
+        v
+    }
+    pub const DESC: &str = "[C01] built-in ext traits core::fmt::{Display, Debug, Octal, LowerHex, UpperHex, Pointer, Binary, LowerExp, UpperExp}: every one reaches the implementor's own fmt, also when that fails by itself";
+    pub fn raw_check() -> Result<u64, (String, String)> {
+        let mut acc = Vec::new();
+        for fail in [false, true] {
+            let want = all(&Q { id: 41, fail });
+            let boxed = group_obj!(Q { id: 41, fail } as Gq);
+            if boxed.qid() != 41 {
+                return Err(("obj:fmt_ext:dispatch".into(), "group does not dispatch".into()));
+            }
+            let arc = ::std::sync::Arc::new(());
+            let with_ctx = group_obj!((Q { id: 41, fail }, cglue::arc::CArc::<()>::from(arc.clone())) as Gq);
+            for (how, got) in [("Box", all(&boxed)), ("ArcBox", all(&with_ctx))] {
+                for i in 0..9 {
+                    if got[i] != want[i] {
+                        return Err((format!("obj:fmt_ext:{}", NAMES[i]), format!(
+                            "{} of a {} group over an implementor that {}: direct formatting gives {:?} (ok = {}), through the object {:?} (ok = {})",
+                            NAMES[i], how, if fail { "fails by itself after part of its output" } else { "succeeds" }, want[i].1, want[i].0, got[i].1, got[i].0)));
+                    }
+                }
+            }
+            acc.push(want);
+        }
+        Ok(digest(&acc))
+    }
+}
+
 /// hand-written structure member: several temporary-storage slots of mixed receiver kind; the temporary storage keeps the
 /// methods' declaration order (a `&mut self` method declared before two `&self` methods)
 pub mod xo2 {
@@ -1254,6 +1354,7 @@ def main():
             reg.append("        (900004, xi::DESC, xi::raw_check as fn() -> Result<u64, (String, String)>),")
             reg.append("        (900005, xj::DESC, xj::raw_check as fn() -> Result<u64, (String, String)>),")
             reg.append("        (900006, xm::DESC, xm::raw_check as fn() -> Result<u64, (String, String)>),")
+            reg.append("        (900007, xq::DESC, xq::raw_check as fn() -> Result<u64, (String, String)>),")
             chunks.append(HAND_O)
         reg.append("    ]")
         reg.append("}")
